@@ -114,7 +114,7 @@ SesProgress(c, a) == \/ SAcc(c, a) \/ \E k \in SRErrs : SReadErr(c, a, k) \/ \E 
 Fair == \A c \in Calls : WF_vars(Internal(c)) /\ WF_vars(EnvProgress(c)) /\ \A a \in 1..2 : WF_vars(SesProgress(c, a))
 FairSpec == MCInit /\ [][MCNext]_vars /\ Fair
 CallsEnd == \A c \in Calls : (s[c].pc # "idle") ~> (s[c].pc = "done" /\ s[c].retd)
-SessionsEnd == \A c \in Calls : \A a \in 1..2 : (HasSes(c, a) /\ ses[c][a].pc # "none") ~> (ses[c][a].pc = "closed")
+SessionsEnd == \A c \in Calls : \A a \in 1..2 : (HasSes(c, a) /\ ses[c][a].pc # "none") ~> (HasSes(c, a) /\ ses[c][a].pc = "closed")
 \* NOT a property (control): a response for every request -- the handler may say no, the link may drop it
 AlwaysAnswered == \A c \in Calls : (s[c].pc # "idle" /\ s[c].kind = "sr") ~> (s[c].pc = "done" /\ s[c].ares = "ok")
 ====
